@@ -71,6 +71,19 @@ def explore(ctx, depth):
                 ctx.seen({'text': case.text, 'clause': 'dump = dumps', 'kw': sorted(kw)}, False)
                 if ('ok' in s) and w != s:
                     ctx.fail({'text': case.text, 'options': sorted(kw), 'clause': 'dump writes dumps'}, 'dump does not write exactly what dumps returns', impl=w, expected=s)
+            # the same path written twice, the second time with a shorter text: the file must hold exactly the second text
+            same = os.path.join(tmp, 'same%d.krn' % k)
+            def overwrite():
+                kp.dump(case.doc, same)
+                kp.dump(case.doc, same, include=[TC.BARLINES, TC.HEADER])
+                with open(same, 'r', newline='') as f:
+                    return f.read()
+            w2 = call(overwrite)
+            s2 = call(lambda: kp.dumps(case.doc, include=[TC.BARLINES, TC.HEADER]))
+            ctx.seen({'text': case.text, 'clause': 'dump over an existing longer file'}, True)
+            if 'ok' in s2 and w2 != s2:
+                ctx.fail({'text': case.text, 'clause': 'dump over an existing longer file'}, 'dump onto an existing file does not leave exactly what dumps returns',
+                         impl=w2, expected=s2)
             # converters, in-process
             src = os.path.join(tmp, 'c%d.krn' % k)
             text = rng.choice(variants)[1]
@@ -105,7 +118,8 @@ def explore(ctx, depth):
             paths = []
             for i, (text, exp) in enumerate(jobs):
                 sub = ['', 'deep', os.path.join('deep', 'deeper')][i % 3]
-                p = os.path.join(d1, sub, 'f%d.%s' % (i, 'krn' if i % 2 == 0 else 'kern'))
+                # the same file stem in different directories (a corpus laid out as composer/number.krn)
+                p = os.path.join(d1, sub, 's%d.%s' % (i // 3, 'krn' if i % 2 == 0 else 'kern'))
                 with open(p, 'w', encoding='utf-8', newline='') as f:
                     f.write(text)
                 paths.append((p, exp, sub))
